@@ -68,6 +68,51 @@ def propagated_into_loop(items):
     return False
 
 
+def stale_operand(items):
+    """in instruction order: r := f(.., q, ..); later q is redefined while r is not; later r is read"""
+    seq = [(i, _regs(it)) for i, it in enumerate(items)]
+    seq = [(i, r) for i, r in seq if r]
+    for a, (i, (d, us)) in enumerate(seq):
+        if d is None:
+            continue
+        stale = False
+        for j, (d2, us2) in seq[a + 1:]:
+            if stale and d in us2:
+                return True
+            if d2 == d:
+                break
+            if d2 is not None and d2 in us and d2 != d:
+                stale = True
+    return False
+
+
+def dead_divrem(items):
+    """a div/rem whose destination is not read before it is overwritten (or before the code ends), in instruction order"""
+    seq = [_regs(it) for it in items]
+    for i, it in enumerate(items):
+        if isinstance(it, (tuple, list)) and isinstance(it[0], str) and it[0].startswith(("div-", "rem-")):
+            d = it[1]
+            dead = True
+            for r in seq[i + 1:]:
+                if not r:
+                    continue
+                if d in r[1]:
+                    dead = False
+                    break
+                if r[0] == d:
+                    break
+            if dead:
+                return True
+    return False
+
+
+def division_dropped(items, src):
+    """the source has fewer division / remainder operators than the bytecode has div-* / rem-* instructions"""
+    n_ins = sum(1 for it in items if isinstance(it, (tuple, list)) and isinstance(it[0], str) and it[0].startswith(("div-", "rem-")))
+    n_src = len(re.findall(r" [/%]=? ", src))
+    return n_src < n_ins
+
+
 def nesting(method):
     f = set(method.get("features", ()))
     return method.get("level", 0) >= 2 and bool(f & {"nested-loop", "cond:&&", "cond:||", "cond:&&&&", "cond:(&&)||", "early-return",
@@ -100,12 +145,18 @@ def classify(rec, method):
             return "nested-structuring"
         return None
     if st in ("differs", "hang"):
+        exp, obs = rec.get("expected") or [], rec.get("observed") or []
+        bad = [i for i in range(len(exp)) if exp[i] != obs[i]]
+        if st == "differs" and bad and all(exp[i] == "AE" for i in bad) and division_dropped(method["items"], src):
+            return "dead-division-removed"
         if MARKER in src:
             return "same-target-condition"
         if "nested-loop" in feats:
             return "nested-loop-structuring"
         if st == "differs" and propagated_into_loop(method["items"]):
             return "propagation-into-loop"
+        if st == "differs" and stale_operand(method["items"]):
+            return "propagation-past-redefinition"
         if nesting(method):
             return "nested-structuring"
         return None
